@@ -119,6 +119,7 @@ class Shared:  # pylint: disable=too-few-public-methods
         self.reader_events_in_window = 0
         self.reads_checked = 0
         self.fallback_probe = 0
+        self.done = False  # set by the actor whose end finishes the scenario (lingering readers stop idling)
 
 
 def universe_key(world, side, idx):
@@ -269,6 +270,12 @@ def reader_main(world, side, shared, spec, lib):  # pylint: disable=too-many-sta
                 finally:
                     if handle is None:
                         cont.close()
+            if spec.get('linger'):
+                # keep the handle (and its SQLite connection) open while the others work: idle scheduling points
+                idle = 0
+                while not shared.done and idle < 400:
+                    SIM.point('h.idle', side.folder, False)
+                    idle += 1
         finally:
             if handle is not None:
                 handle.close()
